@@ -1,3 +1,65 @@
-From YV Require Import PyBase Token.
-Example c08_smoke : skip_space [] = [].
-Proof. reflexivity. Qed.
+(* C08 -- LaTeX problems yield the full error mark at the right place, and
+   only then.  Only statements here, closed by `exact`.  Model:
+   coq/model/Utils.v (latex_error), Scanner.v, Parser.v (err), tables from
+   /repo.
+
+   Proved for every input: what latex_error returns (diagnostic = line and
+   column of the position, complete mark, pinned, first character at the
+   position when that lies inside the text); that each of the producers of a
+   mark (scanner, expander helper) records a diagnostic in the same step; that
+   plain text gives neither.  Not proved: that each detection site of the
+   expander passes the position of the faulty construct (the sites are
+   compared with the implementation by the correspondence run on the
+   C08 stream, diagnostics and marks included). *)
+From YV Require Import PyBase ShellMap ShellMapProofs Token Utils Scanner PState Parser
+                       LatexErrorProofs ScanPlain ExecPlain Catalogue.
+Open Scope Z_scope.
+
+(* (1) the diagnostic carries line and column of p (text_loc is specified by
+   C14_linecol: 1 + number of line breaks before p, 1 + distance to the line
+   start); the tokens together hold the complete mark, all pinned; if p lies
+   inside the text the first token is not empty and stands at p, a second
+   part (text shorter than the mark) stays inside the text *)
+Theorem C08_latex_error : forall mark verbose err p latex,
+  0 <= p <= zlen latex ->
+  let d := fst (latex_error mark verbose err p latex) in
+  let ts := snd (latex_error mark verbose err p latex) in
+  (d_line d, d_col d) = text_loc latex p /\ d_msg d = err /\
+  flat_map txt ts = error_mark mark verbose err /\
+  Forall (fun t => pfix t = true /\ tk t = KText) ts /\
+  (p < zlen latex ->
+   exists t r, ts = t :: r /\ pos t = p /\ txt t <> [] /\
+               Forall (fun t => p <= pos t < zlen latex) r).
+Proof. exact latex_error_spec. Qed.
+Print Assumptions C08_latex_error.
+
+(* (2) no mark without a diagnostic: the expander's helper records the
+   diagnostic of the very call that makes the mark, and touches nothing else *)
+Theorem C08_expander_mark_has_diagnostic : forall T st msg p,
+  let r := err T st msg p in
+  let le := latex_error (sp_mark (t_scan T)) (sp_verbose (t_scan T)) msg p (cur_latex st) in
+  snd r = snd le /\ diags (fst r) = fst le :: diags st /\
+  unknowns (fst r) = unknowns st /\ macros (fst r) = macros st.
+Proof. exact err_spec. Qed.
+Print Assumptions C08_expander_mark_has_diagnostic.
+
+(* (3) the scanner: an error mark (the only pinned token it makes) comes
+   with exactly one diagnostic, every other token with none *)
+Theorem C08_scanner_mark_iff_diagnostic : forall T latex s start,
+  let r := next_token (t_scan T) latex s start in
+  (pfix (fst (fst r)) = true /\ length (snd r) = 1%nat) \/
+  (pfix (fst (fst r)) = false /\ snd r = []).
+Proof. exact next_token_mark_iff_diag. Qed.
+Print Assumptions C08_scanner_mark_iff_diagnostic.
+
+(* (4) a text without active characters produces neither: the scanner has
+   no diagnostic, and by C06_plain_prose_fixed_point the output is the input *)
+Theorem C08_plain_text_no_diagnostic : forall P latex okc,
+  plainb P okc latex = true -> snd (scan P latex) = [].
+Proof. exact (fun P latex okc H => proj2 (proj2 (scan_plain P latex okc H))). Qed.
+Print Assumptions C08_plain_text_no_diagnostic.
+
+Example C08_nonvacuous :
+  let r := latex_error (sp_mark (t_scan py_tables)) false [120]%N 2 [97; 10; 98; 99; 100; 101; 102; 103; 104; 105; 106; 107; 108; 109; 110; 111; 112; 113]%N in
+  (d_line (fst r), d_col (fst r)) = (2, 1) /\ map pos (snd r) = [2].
+Proof. split; reflexivity. Qed.
